@@ -36,7 +36,7 @@ def virt(ctx, behs, name="virt"):
     rc, out = vlib.go_overlay_test(
         ctx, "service", {"zz_verif_natmap_test.go": os.path.join(vlib.HARNESS, "overlay", "service", "zz_verif_natmap_test.go")},
         "TestVerifNatmap", toolchain="1.26",
-        env_extra={"GODEBUG": "asynctimerchan=0", "VERIF_NM_IN": bf, "VERIF_NM_OUT": tf, "VERIF_NM_CFG": json.dumps({"T": 2, "DNST": 4})},
+        env_extra={"GODEBUG": "asynctimerchan=0", "GOMEMLIMIT": "2GiB", "VERIF_NM_IN": bf, "VERIF_NM_OUT": tf, "VERIF_NM_CFG": json.dumps({"T": 2, "DNST": 4})},
         timeout=600)
     if vlib.compile_failed(out):
         ctx.cov["skipped"].append("virtual-time natmap harness does not compile against this tree: " + out[-600:])
@@ -118,7 +118,7 @@ def dns17(ctx):
     drv = U.driver(ctx)
     d = ctx.sub("dns17")
     tf, sf = os.path.join(d, "trace.ndjson"), os.path.join(d, "sum.json")
-    rc, out, err = vlib.run([drv, "dns17", "-out", tf, "-summary", sf, "-seed", str(ctx.seed)], env=vlib.goenv(), timeout=120)
+    rc, out, err = U.run_capped([drv, "dns17", "-out", tf, "-summary", sf, "-seed", str(ctx.seed)], timeout=120)
     if rc != 0:
         raise vlib.Inconclusive("dns17 driver failed: %s" % err[-2000:])
     U.validate(ctx, tf, "UdpNatTraceReal.cfg", U.PROPS["C14"], "real sockets, real-time 17 s DNS rule")
